@@ -12,6 +12,9 @@ renamed to counting wrappers, system calls wrapped at link time and every functi
       presence of the output, what unlink hit, diagnostic and progress messages must equal the model's `Result`;
   (2) the site in which the fault fired must be the last site executed (first_failure_stops on the implementation);
   (3) the outcome is judged by the specification Sqfs.FailStop.Spec.verdict.
+Further fault classes: `stdout` (standard output is /dev/full, closed, or a pipe whose reader has gone) for every
+tool that prints results; `mmap` (the pool allocator) in builds of /repo's default configuration (mempool.c
+compiled, NO_CUSTOM_ALLOC not defined), in which a share of the cases is run a second time.
 """
 import concurrent.futures, hashlib, io, json, os, re, shutil, subprocess, tarfile, time
 from pathlib import Path
@@ -23,16 +26,19 @@ REQUIRED = ["Sqfs.C13." + n for n in (
     "run_checked", "status_success_only_at_end", "status_success_no_fault", "cleanup_unlinks_the_stored_name",
     "cleanup_not_reached_only_in_init", "failure_never_leaves_output", "failure_never_leaves_output_partial",
     "failure_reports_site", "all_sites_have_diagnostic", "failure_has_diagnostic", "exit0_output_eq_fault_free", "first_failure_stops", "reader_status_success_no_fault",
-    "reader_first_failure_stops", "blockproc_error_propagates", "blockproc_session_propagates")]
+    "reader_first_failure_stops", "reader_exit0_results_delivered", "reader_exit0_results_delivered_partial",
+    "packer_meets_spec", "reader_meets_spec", "blockproc_error_propagates", "blockproc_session_propagates")]
 
 ALLOC_DEFS = ["-Dmalloc=vf_malloc", "-Dcalloc=vf_calloc", "-Drealloc=vf_realloc", "-Dstrdup=vf_strdup",
               "-Dstrndup=vf_strndup", "-fno-pie", "-finstrument-functions"]
 WRAP_SYMS = ["write", "pwrite", "pwrite64", "read", "pread", "pread64", "ftruncate", "ftruncate64", "lseek", "lseek64",
              "fsync", "close", "open", "open64", "openat", "openat64",
              "chdir", "unlink", "realpath", "mkdir", "mknod", "symlink", "fstat", "fstatat", "dup", "lsetxattr", "utimensat",
-             "fchownat", "fchmodat", "readlinkat", "llistxattr", "lgetxattr"]
+             "fchownat", "fchmodat", "readlinkat", "llistxattr", "lgetxattr",
+             "opendir", "fdopendir", "readdir", "readdir64", "fflush", "mmap", "mmap64"]
 SYS_CLASSES = ["write", "read", "trunc", "open", "lseek", "fsync", "close", "fsop"]
-ALLOC_CLASSES = ["malloc", "calloc", "realloc", "strdup"]
+ALLOC_CLASSES = ["malloc", "calloc", "realloc", "strdup", "mmap"]     # mmap: only the pool-allocator builds make such calls
+STDOUT_KINDS = ["devfull", "closed", "epipe"]                         # fault class `stdout` (environment, not the shim)
 KINDS = ["ENOSPC", "EIO", "EINTR"]
 CUT_KINDS = ["EOF", "SHORT"]          # truncated input
 TOOLS = ["gensquashfs", "tar2sqfs", "sqfs2tar", "rdsquashfs"]
@@ -81,11 +87,16 @@ def build_tools(ctx):
         raise vlib.CheckFailure("shim_fault.c does not compile: " + r.stderr[-2000:])
     ld = ["-no-pie", "-Wl," + ",".join("--wrap=" + s for s in WRAP_SYMS)]
     tools = {t: ctx.build_tool(t, tag="fault", flags=ALLOC_DEFS, extra_objs=[str(shim)], ldflags=ld) for t in TOOLS}
+    # /repo's default configuration: pool allocator (mempool.c, mmap) instead of plain malloc for the rbtree nodes
+    for t in TOOLS:
+        tools[t + "@pool"] = ctx.build_tool(t, tag="faultpool", flags=ALLOC_DEFS, extra_objs=[str(shim)], ldflags=ld, custom_alloc=True)
     syms, skel = {}, {}
     for t, exe in tools.items():
         st = SymTab(exe)
         addrs = []
-        for fn in SKELETON[t]:
+        if t.endswith("@pool") and "mem_pool_create" not in st.by_name:
+            raise Infra("%s was not built with the pool allocator (mem_pool_create missing)" % t)
+        for fn in SKELETON[t.split("@")[0]]:
             if fn not in st.by_name:
                 raise vlib.CheckFailure("skeleton function %s is not in the symbol table of %s: the model's phase structure no longer "
                                         "matches the sources" % (fn, t))
@@ -219,7 +230,53 @@ def make_tar(path, files, root_prefix=None):
             struct.append(("data", m.offset_data + m.size // 2))
             if m.size % 512:
                 struct.append(("data-padding", m.offset_data + m.size + (512 - m.size % 512) // 2))
+    make_tar.names = [ti.name for ti in members]         # for callers that filter entries (tar2sqfs --exclude-dir)
     return "".join(letters), offs + [end], (end, struct)
+
+
+def make_gz_boundary(path, rng):
+    """gzip file of a ustar archive [dir, 128 000-byte file | two more files] made of *two members*, the first one exactly
+    131072 bytes long (= BUFSZ of lib/sqfs/src/io/istream.c; stored deflate blocks padded with empty ones): the first
+    buffer the file stream reads ends between two members and between two tar entries.  Returns (path, entry letters,
+    length of the first member)"""
+    import struct, zlib
+    import gzip as _gz
+    buf = io.BytesIO()
+    with tarfile.open(fileobj=buf, mode="w", format=tarfile.USTAR_FORMAT) as tf:
+        def add(name, data=None):
+            ti = tarfile.TarInfo(name)
+            ti.mtime, ti.mode = 1000000000, 0o755 if data is None else 0o644
+            if data is None:
+                ti.type = tarfile.DIRTYPE
+            else:
+                ti.size = len(data)
+            tf.addfile(ti, io.BytesIO(data) if data is not None else None)
+        add("d")
+        add("d/a.bin", det_bytes("gzb%d" % rng.randint(0, 99), 250 * 512))
+        add("d/b.bin", det_bytes("gzb-b", rng.choice([700, 5000, 9000])))
+        add("c.txt", b"hello world\n")
+    T = buf.getvalue()
+    b = 252 * 512                      # end of the second entry; 10 + 5 * nblocks + b + 8 == 131072 has a solution (b = 4 mod 5)
+
+    def stored(data, final=False):
+        return bytes([1 if final else 0]) + struct.pack("<HH", len(data), len(data) ^ 0xFFFF) + data
+    out = bytearray(b"\x1f\x8b\x08\x00\x00\x00\x00\x00\x00\x03")
+    pos = 0
+    while pos < b:
+        n = min(65535, b - pos)
+        out += stored(T[pos:pos + n])
+        pos += n
+    while len(out) < 131072 - 8 - 5:
+        out += stored(b"")
+    out += stored(b"", final=True)
+    out += struct.pack("<II", zlib.crc32(T[:b]) & 0xFFFFFFFF, b & 0xFFFFFFFF)
+    if len(out) != 131072:
+        raise Infra("make_gz_boundary: cannot align the stream (%d)" % len(out))
+    out += _gz.compress(T[b:], mtime=0)
+    if _gz.decompress(bytes(out)) != T:
+        raise Infra("make_gz_boundary: stream does not decode")
+    Path(path).write_bytes(bytes(out))
+    return path, "nnnn", 131072
 
 
 # ------------------------------------------------------------------------------------------------ running one case
@@ -227,8 +284,10 @@ class Case:
     """one tool invocation whose faults are enumerated"""
 
     def __init__(self, name, tool, argv, out_kind, stdin=None, cwd=None, rel_out=False, model=None, plan="full", mt=False,
-                 cut=None, subst=None):
+                 cut=None, subst=None, pool=False, stdout_faults=False):
         self.name, self.tool, self.argv, self.out_kind = name, tool, argv, out_kind
+        self.pool = pool                      # run the build of /repo's default configuration (pool allocator)
+        self.stdout_faults = stdout_faults    # also enumerate the fault class `stdout`
         self.stdin, self.cwd, self.rel_out, self.model, self.plan, self.mt = stdin, cwd, rel_out, model, plan, mt
         # out_kind: 'file' (packer image), 'stdout' (sqfs2tar / rdsquashfs -c), 'tree' (rdsquashfs -u)
         # model: ('packer', tool, flags, nfiles, entries) | ('reader', tool, flags) | None
@@ -304,8 +363,11 @@ def parse_sites(path):
     return log, done
 
 
-def run_case(case, exe, workdir, skel, fault=None, timeout=TIMEOUT, env_base=None, trace=False, stdin_override=None, argv_subst=None):
-    """run once; returns dict(rc, timeout, out, stdout, stderr, report, sites, sites_ok[, trace])"""
+def run_case(case, exe, workdir, skel, fault=None, timeout=TIMEOUT, env_base=None, trace=False, stdin_override=None, argv_subst=None,
+             stdio=None):
+    """run once; returns dict(rc, timeout, out, stdout, stderr, report, sites, sites_ok[, trace]).
+    stdio: None | devfull (stdout is /dev/full: ENOSPC) | closed (descriptor 1 closed: EBADF) | epipe (stdout is a pipe
+    without a reader, SIGPIPE ignored: EPIPE) | errfull (stderr is /dev/full)"""
     workdir = Path(workdir)
     if workdir.exists():
         shutil.rmtree(workdir)
@@ -332,17 +394,36 @@ def run_case(case, exe, workdir, skel, fault=None, timeout=TIMEOUT, env_base=Non
     sp = stdin_override or case.stdin
     stdin = open(sp, "rb") if sp else subprocess.DEVNULL
     res = {"timeout": False}
+    cmd, so_arg, se_arg, extra, closers = [str(exe)] + argv, subprocess.PIPE, subprocess.PIPE, {}, []
+    if stdio == "devfull":
+        so_arg = open("/dev/full", "wb")
+        closers.append(so_arg)
+    elif stdio == "errfull":
+        se_arg = open("/dev/full", "wb")
+        closers.append(se_arg)
+    elif stdio == "closed":
+        cmd, so_arg = ["/bin/sh", "-c", 'exec "$0" "$@" >&-'] + cmd, subprocess.DEVNULL
+    elif stdio == "epipe":
+        rfd, wfd = os.pipe()
+        os.close(rfd)                                   # nobody will ever read
+        so_arg, extra = wfd, {"restore_signals": False}  # Python ignores SIGPIPE; the child inherits that: write → EPIPE
+    elif stdio is not None:
+        raise Infra("unknown stdio fault " + stdio)
     try:
-        p = subprocess.run([str(exe)] + argv, stdin=stdin, stdout=subprocess.PIPE, stderr=subprocess.PIPE, env=env,
-                           cwd=case.cwd, timeout=timeout)
+        p = subprocess.run(cmd, stdin=stdin, stdout=so_arg, stderr=se_arg, env=env, cwd=case.cwd, timeout=timeout, **extra)
         res["rc"] = p.returncode
-        so, se = p.stdout, p.stderr
+        so, se = p.stdout or b"", p.stderr or b""
     except subprocess.TimeoutExpired as e:
         res["rc"], res["timeout"] = 124, True
         so, se = e.stdout or b"", e.stderr or b""
     finally:
         if sp:
             stdin.close()
+        for f in closers:
+            f.close()
+        if stdio == "epipe":
+            os.close(wfd)
+    res["out_len"] = len(so)
     res["stderr"] = se.decode("utf-8", "replace")
     if case.out_kind == "stdout":
         res["out"] = hashlib.sha256(so).hexdigest()
@@ -478,6 +559,7 @@ SITE_MAP = {
                  ("ostream_open_stdout", S("rCatStdout")), ("sqfs_istream_splice", IDX("rSplice", "splice", True)), ("tree_sort", S("rTreeSort")),
                  ("mkdir_p", S("rMkdirP")), (r"@chdir:\w+", S("rChdir")), ("restore_fstree", S("rRestore")), ("fill_unpacked_files", S("rFill")),
                  ("update_tree_attribs", S("rAttribs")), ("describe_tree", S("rDescribe")), ("dump_xattrs", S("rDumpXattrs")),
+                 (r"@fflush:\w+", S("rStdoutFlush")),
                  ("sqfs_dir_tree_destroy|sqfs_drop|sqfs_perror", IGN)],
     },
 }
@@ -537,7 +619,7 @@ def fault_position(tool, st, skel_addrs, items, log, report):
     if deepest + 1 >= len(stack):
         # in the body of a skeleton function: a libc call made there (chdir / realpath are sites of their own)
         parent = st.name(stack[deepest])
-        if fn in ("chdir", "realpath") and any(rx.match("@%s:fail" % fn) and a[0] == "site" for rx, a in _MAP_RE[tool].get(parent, [])):
+        if fn in ("chdir", "realpath", "fflush") and any(rx.match("@%s:fail" % fn) and a[0] == "site" for rx, a in _MAP_RE[tool].get(parent, [])):
             return nsite_before, "pseudo:" + fn
         return None, "body:" + parent
     if n == 0:
@@ -616,6 +698,17 @@ def gen_cases(ctx, d, rng, tools, thorough):
     make_packfile(R, sfiles, extras=False)
     (R / "packabs.txt").write_text("".join("file %s 0644 0 0 %s\n" % (n.replace("/", "_"), R / "in" / n) for n, _ in sfiles))
     (R / "in" / "pack.txt").write_text((R / "pack.txt").read_text())
+    # extended attributes in the scanned tree (read only with --keep-xattr: llistxattr / lgetxattr of the directory iterator)
+    try:
+        os.setxattr(R / "in" / "f0.txt", "user.c13", b"value-%d" % rng.randint(0, 999))
+        os.setxattr(R / "in" / "sub", "user.c13dir", b"d")
+        os.setxattr(R / "in" / "sub" / "z", "user.empty", b"")
+        have_xattr = True
+    except OSError:
+        have_xattr = False
+    # a pack file with glob lines (glob.c: its own directory scans, prefix handling, result of scan_directory)
+    (R / "glob.txt").write_text("dir /g 0755 0 0\nglob /g 0755 0 0 -type d -- in\nglob /g 0644 0 0 -type f -name \"*.bin\" -- in\n"
+                                "glob /g * * * -type f -name \"z\" -keeptime -- in\nfile top 0644 0 0 in/f0.txt\n")
     q = [] if rng.random() < 0.5 else ["-q"]
     qf = "q" if q else ""
     cases.append(Case("gen-rel", "gensquashfs", ["-F", "pack.txt", "-D", "in", "-b", str(BS), "-j", "1"] + q + ["@OUT@"], "file", cwd=str(R), rel_out=True,
@@ -626,6 +719,11 @@ def gen_cases(ctx, d, rng, tools, thorough):
                       rel_out=True, model=("packer", "gen", "pdcrq", len(sfiles), "-"), plan="sys+sample:60"))
     cases.append(Case("gen-rel-nodir", "gensquashfs", ["-F", "packabs.txt", "-b", str(BS), "-j", "1", "-q", "@OUT@"], "file", cwd=str(R), rel_out=True,
                       model=("packer", "gen", "prq", len(sfiles), "-"), plan="sys+sample:60"))
+    cases.append(Case("gen-glob", "gensquashfs", ["-F", str(R / "glob.txt"), "-D", str(R), "-b", str(BS), "-j", "1", "-q", "@OUT@"], "file",
+                      model=("packer", "gen", "pdq", 3, "-"), plan="sys+sample:%d" % rng.choice([50, 70])))
+    if have_xattr:
+        cases.append(Case("gen-kx", "gensquashfs", ["--pack-dir", str(R / "in"), "--keep-xattr", "-b", str(BS), "-j", "1", "-q", "@OUT@"], "file",
+                          model=("packer", "gen", "dq", len(sfiles) + 1, "-"), plan="sys+sample:50"))
     # ---- tar2sqfs
     letters, offs, end = make_tar(d / "in.tar", files)
     cases.append(Case("t2s", "tar2sqfs", common + ["-c", comp, "-e", "@OUT@"], "file", stdin=str(d / "in.tar"),
@@ -634,6 +732,30 @@ def gen_cases(ctx, d, rng, tools, thorough):
     jt = str(rng.choice([1, 2, 3]))
     cases.append(Case("t2s-root", "tar2sqfs", ["-b", str(BS), "-j", jt, "-r", "dir1", "-q", "@OUT@"], "file", stdin=str(d / "in_r.tar"),
                       model=("packer", "t2s", "q", 0, letters_r), cut=("tar", offs_r, end_r), mt=jt != "1"))
+    # compressed input (xfrm istream between the file and the tar parser), no xattrs copied, --no-skip
+    import gzip as _gz
+    with open(d / "in.tar", "rb") as fi, open(d / "in.tar.gz", "wb") as fo:
+        with _gz.GzipFile(fileobj=fo, mode="wb", mtime=0, compresslevel=rng.choice([1, 6, 9])) as g:
+            g.write(fi.read())
+    import fnmatch as _fn
+    excl = rng.choice(["dir2*", "dir1/*", "*.bin"])          # entries the tar iterator drops before process_tarball sees them
+    letters_gz = "".join(l for l, nm in zip(letters, make_tar.names) if not _fn.fnmatchcase(nm, excl))
+    if len(letters) != len(make_tar.names) or len(letters_gz) == len(letters):
+        raise Infra("t2s-gz: --exclude-dir %s excludes nothing" % excl)
+    cases.append(Case("t2s-gz", "tar2sqfs", ["-b", str(BS), "-j", "1", "-x", "--no-skip", "-E", excl, "-q", "@OUT@"], "file", stdin=str(d / "in.tar.gz"),
+                      model=("packer", "t2s", "nq", 0, letters_gz), cut=("gz", os.path.getsize(d / "in.tar.gz")), plan="sys+sample:60"))
+    # a compressed archive longer than the 128 KiB buffer of the file stream, in two gzip members, the first one exactly as
+    # long as that buffer and ending between two tar entries: a failing second read must be an error, not the end of the input
+    gzb, gzb_letters, gzb_m1 = make_gz_boundary(d / "in_b.tar.gz", rng)
+    cases.append(Case("t2s-gzb", "tar2sqfs", ["-b", str(BS), "-j", "1", "-q", "@OUT@"], "file", stdin=str(gzb),
+                      model=("packer", "t2s", "q", 0, gzb_letters), cut=("gz", os.path.getsize(gzb), [gzb_m1]), plan="sys+sample:25"))
+    # archives with sparse members (old GNU format, PAX 0.1 and PAX 1.0 sparse maps): corpus/C13/tars
+    sp = sorted((vlib.CORPUS / "C13" / "tars").glob("*.tar"))
+    if len(sp) < 3:
+        raise Infra("corpus/C13/tars: sparse archives missing")
+    for i, tp in enumerate(sp):
+        cases.append(Case("t2s-sparse%d" % i, "tar2sqfs", ["-b", str(BS), "-j", "1", "-q", "@OUT@"], "file", stdin=str(tp),
+                          model=("packer", "t2s", "q", 0, "n"), plan="sys+sample:%d" % (60 if i == rng.randrange(len(sp)) else 25)))
     # ---- 512 directories + root = 513 inodes: the root's export-table slot is the first one beyond the initial
     # capacity of 512 entries, so add_export_table_entry has to grow the table inside write_export_table
     M = d / "many"
@@ -651,21 +773,39 @@ def gen_cases(ctx, d, rng, tools, thorough):
                  "-c", comp, "-e", "-q", str(img)], env=ctx.san_env(), timeout=TIMEOUT_ISOLATED, stdout=subprocess.DEVNULL)
     if r.returncode != 0:
         raise vlib.CheckFailure("cannot build the reader image: " + r.stderr[-1000:])
+    img2 = d / "img_nox.sqfs"             # an image without any extended attribute (SQFS_FLAG_NO_XATTRS)
+    r = vlib.sh([str(tools["gensquashfs"]), "--pack-dir", str(R / "in"), "-b", str(BS), "-j", "1", "-q", str(img2)], env=ctx.san_env(),
+                timeout=TIMEOUT_ISOLATED, stdout=subprocess.DEVNULL)
+    if r.returncode != 0:
+        raise vlib.CheckFailure("cannot build the second reader image: " + r.stderr[-1000:])
     scomp = rng.choice(["gzip", "xz", "zstd"])
     catf = rng.choice(["big1.bin", "dir2/incompr.bin", "zero_big"])
     cases += [
-        Case("s2t", "sqfs2tar", [str(img)], "stdout", model=("reader", "s2t", "-"), cut=("image",)),
-        Case("s2t-c", "sqfs2tar", ["-c", scomp, str(img)], "stdout", model=("reader", "s2t", "c"), cut=("image",)),
-        Case("rd-u", "rdsquashfs", ["-u", "/", "-p", "@OUT@", str(img)], "tree", model=("reader", "rd", "up"), cut=("image",)),
+        Case("s2t", "sqfs2tar", [str(img)], "stdout", model=("reader", "s2t", "-"), cut=("image",), stdout_faults=True),
+        Case("s2t-c", "sqfs2tar", ["-c", scomp, str(img)], "stdout", model=("reader", "s2t", "c"), cut=("image",), stdout_faults=True),
+        Case("s2t-sub", "sqfs2tar", ["-d", "dir1", "-d", "dir2", "--keep-as-dir", "-r", "new/root", "-X", "-s", str(img)], "stdout", model=("reader", "s2t", "-"),
+             plan="sys+sample:40"),
+        Case("rd-u", "rdsquashfs", ["-u", "/", "-p", "@OUT@", str(img)], "tree", model=("reader", "rd", "up"), cut=("image",), stdout_faults=True),
         Case("rd-ua", "rdsquashfs", ["-u", "/", "-C", "-O", "-T", "-X", "-p", "@OUT@", str(img)], "tree", model=("reader", "rd", "up")),
-        Case("rd-c", "rdsquashfs", ["-c", catf, str(img)], "stdout", model=("reader", "rd", "c"), cut=("image",)),
-        Case("rd-x", "rdsquashfs", ["-x", "a.txt", str(img)], "stdout", model=("reader", "rd", "x")),
-        Case("rd-d", "rdsquashfs", ["-d", str(img)], "stdout", model=("reader", "rd", "d")),
-        Case("rd-s", "rdsquashfs", ["-s", "dir1/big2.bin", str(img)], "stdout", model=("reader", "rd", "s")),
+        Case("rd-c", "rdsquashfs", ["-c", catf, str(img)], "stdout", model=("reader", "rd", "c"), cut=("image",), stdout_faults=True),
+        Case("rd-x", "rdsquashfs", ["-x", "a.txt", str(img)], "stdout", model=("reader", "rd", "x"), stdout_faults=True),
+        Case("rd-d", "rdsquashfs", ["-d", str(img)], "stdout", model=("reader", "rd", "d"), stdout_faults=True),
+        Case("rd-s", "rdsquashfs", ["-s", "dir1/big2.bin", str(img)], "stdout", model=("reader", "rd", "s"), stdout_faults=True),
+        Case("rd-l", "rdsquashfs", ["-l", "dir1", str(img)], "stdout", model=("reader", "rd", "l"), stdout_faults=True, plan="sys+sample:30"),
+        # an image without extended attributes: main skips the xattr reader (model flag N)
+        Case("rd-d-nox", "rdsquashfs", ["-d", str(img2)], "stdout", model=("reader", "rd", "dN"), stdout_faults=True, plan="sys+sample:40"),
     ]
+    for c in cases:
+        if c.name in ("gen-F", "t2s"):
+            c.stdout_faults = True            # the packers print progress and statistics: a write error there must not damage the image
+    # ---- /repo's default configuration (pool allocator): a share of the cases a second time; every mmap made to fail
+    for c in list(cases):
+        if c.name in ("gen-F", "t2s", "s2t", "rd-u", "rd-ua", "rd-d"):
+            cases.append(Case(c.name + "@pool", c.tool, c.argv, c.out_kind, stdin=c.stdin, cwd=c.cwd, rel_out=c.rel_out, model=c.model,
+                              plan="pool:%d" % (120 if thorough else 35), cut=c.cut, pool=True))
     if thorough:
         cases.append(Case("s2t-nolinks", "sqfs2tar", ["--no-hard-links", str(img)], "stdout", model=("reader", "s2t", "L"), cut=("image",)))
-        cases.append(Case("rd-l", "rdsquashfs", ["-l", "dir1", str(img)], "stdout", model=("reader", "rd", "l")))
+        cases.append(Case("s2t-root", "sqfs2tar", ["-d", "dir1", "-r", "new/root", str(img)], "stdout", model=("reader", "s2t", "-")))
     return cases
 
 
@@ -780,11 +920,16 @@ def plan_for(ctx, case, base, thorough):
         if not thorough and n > 200:          # the tail (finish phase) completely, the parsing phase sampled
             ks = sorted(set(ctx.rng.sample(range(1, n - 63), 100)) | set(range(n - 63, n + 1)))
         return [{"cls": "realloc", "k": k} for k in ks]
-    m = re.match(r"(sys\+)?sample:(\d+)$", plan)
+    m = re.match(r"(sys\+|pool:)?(?:sample:)?(\d+)$", plan)
     if not m:
         raise Infra("unknown plan " + plan)
-    n = int(m.group(2)) * (4 if thorough else 1)
-    if m.group(1):
+    n = int(m.group(2)) * (4 if thorough and m.group(1) != "pool:" else 1)
+    if m.group(1) == "pool:":
+        keep = [j for j in jobs if j["cls"] == "mmap"]
+        if not keep:
+            raise Infra("pool-allocator build of %s made no mmap call: mempool.c is not in use" % case.name)
+        rest = [j for j in jobs if j["cls"] in ALLOC_CLASSES and j["cls"] != "mmap"]
+    elif m.group(1):
         keep = [j for j in jobs if j["cls"] in SYS_CLASSES and j.get("kind") in ("EIO", "ENOSPC")]
         rest = [j for j in jobs if j not in keep]
     else:
@@ -859,12 +1004,15 @@ def verdict_py(o):
 def observe(case, base, r, same=None):
     packer = case.out_kind == "file"
     crashed = r["timeout"] or r["rc"] < 0 or r["rc"] >= 90
-    return {"crashed": crashed, "exit0": r["rc"] == 0, "diag": bool(r["stderr"].strip()), "packer": packer,
+    # a diagnostic = something on stderr that the fault-free run does not print (its stderr is required to be empty
+    # for every case but those listed in process_case; then: anything at all)
+    diag = bool(r["stderr"].strip()) and r["stderr"].strip() != base["stderr"].strip()
+    return {"crashed": crashed, "exit0": r["rc"] == 0, "diag": diag, "packer": packer,
             "left": packer and r["out"] != "absent", "same": (r["out"] == base["out"]) if same is None else same}
 
 
 def cls_group(cls):
-    return "alloc" if cls in ALLOC_CLASSES else cls
+    return "mmap" if cls == "mmap" else "alloc" if cls in ALLOC_CLASSES else cls
 
 
 def count_files(root):
@@ -904,7 +1052,7 @@ def model_cfg(case, base_items):
         n = sum(1 for x in names if x.startswith("sEntry:"))
     else:
         n = sum(1 for x in names if x.startswith("rSplice:"))
-    return "rrun %s %s %d" % (m[1], m[2], n), False
+    return "rrun %%s %s %s %d" % (m[1], m[2], n), False
 
 
 # ------------------------------------------------------------------------------------------------ truncated input: the reference
@@ -921,7 +1069,7 @@ class CutRef:
             return self.cache[key]
         c, ref = self.case, None
         d = self.work / ("cut_%d" % len(self.cache))
-        if c.cut[0] == "tar" and c.stdin and os.path.realpath(path) == os.path.realpath(c.stdin):
+        if c.cut[0] in ("tar", "gz") and c.stdin and os.path.realpath(path) == os.path.realpath(c.stdin):
             d.mkdir(parents=True)
             (d / "in.tar").write_bytes(Path(c.stdin).read_bytes()[:off])
             ref = run_case(c, self.exe, d / "w", self.skel, None, env_base=self.env, timeout=TIMEOUT_ISOLATED, stdin_override=str(d / "in.tar"))
@@ -956,6 +1104,9 @@ def judge_cut(case, base, r, cutref):
     path, off = cut
     if case.cut[0] == "image":
         return False, "image"                # a shortened image never legitimately reads as something else
+    if case.cut[0] == "gz" and 0 < off < case.cut[1] and off not in (case.cut[2] if len(case.cut) > 2 else []):
+        return False, "mid-stream"           # a compressed stream that ends inside a member must be refused (an empty input is an
+                                             # empty archive; the end of a member is the end of a valid, shorter file: reference run)
     if case.cut[0] == "tar":
         bounds, end = case.cut[1], case.cut[2][0]
         if off < end and off not in bounds:
@@ -966,13 +1117,23 @@ def judge_cut(case, base, r, cutref):
     return (ref["rc"] == 0 and ref["out"] == r["out"]), "reference rc=%d" % ref["rc"]
 
 
+# Sites that are known to absorb a failure of an operation inside them, the run failing at a later site instead (tool,
+# site the fault fired in, site that reports).  Each entry is a place where the *implementation* does not satisfy
+# first_failure_stops although the statement of C13 is met (non-zero exit, diagnostic, output removed):
+#   tar_open_stream (lib/tar/src/iterator.c:390-392): `ret = strm->get_buffered_data(...); if (ret != 0) goto out_strm;` — a read
+#   error while probing for a compressed stream is taken as "not compressed".  With a persistent error the next read
+#   (it_next) reports it; with a single transient one a compressed archive is then refused by the tar parser ("input is
+#   not a ustar tar archive", exit 1).  An uncompressed archive is simply read again (exit 0, same output: tolerated).
+ABSORBED = {("tar2sqfs", "tarOpen", "tarNext")}
+
 # ------------------------------------------------------------------------------------------------ one case
 WHAT = {"crash": "crashes / hangs / sanitizer report", "exit0-different-output": "exits 0 with an output that differs from the fault-free run",
         "failure-output-left": "fails but leaves its partial output file behind", "failure-no-diagnostic": "fails without any diagnostic on stderr"}
 
 
 def process_case(ctx, case, tools, syms, skels, env, work, report, stats, thorough, nworkers, acc):
-    exe, st, skel = tools[case.tool], syms[case.tool], skels[case.tool]
+    tkey = case.tool + ("@pool" if case.pool else "")
+    exe, st, skel = tools[tkey], syms[tkey], skels[tkey]
     skel_addrs = {int(x, 16) for x in skel.split(",")}
     base = run_case(case, exe, work / "base", skel, None, env_base=env, timeout=TIMEOUT_ISOLATED, trace=case.plan == "stratified")
     if base["rc"] != 0 or base["out"] == "absent":
@@ -981,6 +1142,9 @@ def process_case(ctx, case, tools, syms, skels, env, work, report, stats, thorou
         return
     if not base["report"]["present"] or not base["sites_ok"] or not base["sites"]:
         raise Infra("fault-free run of %s produced no report / no complete call log" % case.name)
+    if base["stderr"].strip():
+        # a fault-free run that already prints to stderr would make "diagnostic" meaningless: only differences count then
+        stats["noisy_baselines"].append(case.name)
     base2 = run_case(case, exe, work / "base2", skel, None, env_base=env, timeout=TIMEOUT_ISOLATED)
     if base2["out"] != base["out"]:
         report("nondet:" + case.name, "two fault-free runs of %s differ" % case.name, {"case": case.name}, found_input=False)
@@ -1000,28 +1164,35 @@ def process_case(ctx, case, tools, syms, skels, env, work, report, stats, thorou
         model_ok = False
         report("corr:faultfree-unlink:" + case.name, "the fault-free run of %s calls unlink on its output" % case.name, {"case": case.name}, found_input=False)
     qfmt, packer = model_cfg(case, items_b)
-    variants = ["cur", "fix"] if packer else [None]
+    # `cur` = /repo as it is, `fix` = /repo + fixes/C13-check-stdout-errors.patch (the two differ for rdsquashfs only; the
+    # first that matches is taken, so everything but rdsquashfs is always compared with `cur`).  A tree that matches neither
+    # is a correspondence violation — also the source before b5ce20d (`old`), which is tried only to say so in the report.
+    variants = ["cur", "fix"]
 
     def q(v, faults):
-        return (qfmt % v if packer else qfmt) + " " + faults
+        return (qfmt % v) + " " + faults
     ff = [parse_model(x) for x in driver_lines(ctx, [q(v, "-") for v in variants])]
+    if len(ff) != len(variants):
+        raise Infra("model answers / variants mismatch")
     tree_variant, model_ff = None, None
     for v, m in zip(variants, ff):
         if m["ran"] == (",".join(real_ff) or "-") and m["status"] == "0" and (not packer or m["msgs"] == real_msgs(base["stdout"])):
-            tree_variant = v or "rd"
+            tree_variant = v
             model_ff = m
             break
     if tree_variant is None:
         model_ok = False
         mm = ff[0]["ran"].split(",")
         i = next((i for i, (a, b) in enumerate(zip(mm, real_ff)) if a != b), min(len(mm), len(real_ff)))
+        old = parse_model(driver_lines(ctx, [q("old", "-")])[0]) if packer else None
+        hint = " — this is the program of the source before b5ce20d (no realpath of the output name)" if old and old["ran"] == ",".join(real_ff) else ""
         report("corr:faultfree:" + case.name,
-               "fault-free call sequence of %s differs from the model's program at position %d: real %s, model %s (real msgs %s, model msgs %s)"
-               % (case.name, i, real_ff[i:i + 3], mm[i:i + 3], real_msgs(base["stdout"]), ff[0].get("msgs")),
+               "fault-free call sequence of %s differs from the model's program at position %d: real %s, model %s (real msgs %s, model msgs %s)%s"
+               % (case.name, i, real_ff[i:i + 3], mm[i:i + 3], real_msgs(base["stdout"]), ff[0].get("msgs"), hint),
                {"case": case.name, "argv": case.argv, "real": real_ff, "model": mm}, found_input=False)
     acc["tree_variant"].setdefault(tree_variant, []).append(case.name)
     # from here on the model of the source the tree turned out to be: /repo as it is, or the repaired one
-    variants = [tree_variant if packer else None]
+    variants = [tree_variant or "cur"]
     jobs = plan_for(ctx, case, base, thorough)
     if not jobs:
         raise Infra("no fault position planned for %s (counting run reported nothing)" % case.name)
@@ -1111,6 +1282,8 @@ def process_case(ctx, case, tools, syms, skels, env, work, report, stats, thorou
         if ent["q"] == "ff":
             if r["out"] == base["out"]:
                 stats["tolerated"] += 1
+                tk = "%s:%s" % (cls_group(f["cls"]), r["report"].get("fn") or "?")
+                stats["tolerated_by_call"][tk] = stats["tolerated_by_call"].get(tk, 0) + 1
                 if ",".join(ent["ran"]) != model_ff["ran"] or (packer and real_msgs(r["stdout"]) != model_ff["msgs"]) or ent["unl"]:
                     acc["corr_bad"] += 1
                     report("corr:exit0-trace:" + key, "exit 0 with the fault-free output, but the calls made differ from the model's fault-free program", replay, found_input=False)
@@ -1145,7 +1318,10 @@ def process_case(ctx, case, tools, syms, skels, env, work, report, stats, thorou
                                       " | ".join("ran=..%s out=%s diag=%s unlink=%s msgs=%s" % (",".join(m["ran"].split(",")[-3:]), m.get("out"), m["diag"], m.get("unlink"), m.get("msgs")) for m in ms)),
                        dict(replay, real_ran=ent["ran"], model=[answers[ent["q"] + j] for j in range(len(variants))]), found_input=False)
             # first_failure_stops, evaluated on the implementation: the site in which the fault fired is the last one executed
-            if ent["pos"] is not None and f.get("kind") not in ("EINTR", "EOF", "SHORT") and r["report"]["thread"] == 1 and ent["pos"] != k:
+            if ent["pos"] is not None and ent["pos"] != k and (case.tool, ent["ran"][ent["pos"]].split(":")[0], ent["ran"][k].split(":")[0]) in ABSORBED:
+                # declared: the site absorbs this failure and a later site reports the consequence (see ABSORBED)
+                stats["absorbed"] = stats.get("absorbed", 0) + 1
+            elif ent["pos"] is not None and f.get("kind") not in ("EINTR", "EOF", "SHORT") and r["report"]["thread"] == 1 and ent["pos"] != k:
                 acc["corr_bad"] += 1
                 report("corr:late-failure:" + key, "the fault fired in site #%d (%s) but the run went on to site #%d (%s) before it failed"
                        % (ent["pos"], ent["ran"][ent["pos"]] if ent["pos"] < len(ent["ran"]) else "?", k, ent["ran"][k]), replay, found_input=False)
@@ -1160,6 +1336,76 @@ def process_case(ctx, case, tools, syms, skels, env, work, report, stats, thorou
                                                                                 " <- ".join(x.split("@")[0] for x in replay["backtrace"][:4])), replay)
     if cstat["fired"] == 0:
         raise Infra("no fault fired in %s" % case.name)
+    if case.mt and cstat["fired"] * 2 < len(jobs):
+        raise Infra("%s: only %d of %d planned faults fired" % (case.name, cstat["fired"], len(jobs)))
+    if case.stdout_faults:
+        stdout_class(ctx, case, exe, st, skel, env, work, base, items_b, real_ff, q, tree_variant if model_ok else None, packer, report, stats, acc)
+
+
+# ------------------------------------------------------------------------------------------------ fault class `stdout`
+STDOUT_FN = {"d": "describe_tree", "l": "list_files", "s": "stat_file", "x": "dump_xattrs", "c": "sqfs_istream_splice", "u": "fill_unpacked_files"}
+
+
+def stdout_class(ctx, case, exe, st, skel, env, work, base, items_b, real_ff, q, variant, packer, report, stats, acc):
+    """standard output cannot be written (ENOSPC on /dev/full, EBADF on a closed descriptor, EPIPE on a pipe nobody reads) —
+    "any system call on the output fails" for the tools whose output *is* standard output; for the others (progress
+    lines of the packers and of rdsquashfs -u) the result must not be damaged.  stderr on /dev/full: a fault-free run must
+    stay fault-free.  The shim cannot inject these (stdio's writes are libc-internal), the environment can."""
+    sstat = stats["stdout_class"]
+    for kind in STDOUT_KINDS + ["errfull"]:
+        r = run_case(case, exe, work / ("%s_%s" % (case.name, kind)), skel, None, env_base=env, timeout=TIMEOUT_ISOLATED, stdio=kind)
+        stats["runs"] += 1
+        sstat["runs"] += 1
+        if not r["report"]["present"] or not r["sites_ok"]:
+            if not (r["timeout"] or r["rc"] < 0 or r["rc"] >= 90):
+                raise Infra("%s with stdout fault %s left no report / call log" % (case.name, kind))
+        if case.out_kind == "stdout" and kind != "errfull":
+            # nothing can be captured: the output is the fault-free one only if there was nothing to write
+            same = base["out_len"] == 0
+        else:
+            same = r["out"] == base["out"]
+        o = observe(case, base, r, same)
+        if kind == "errfull":
+            o["diag"] = True                       # diagnostics are not observable; everything else is
+        v = verdict_py(o)
+        acc["monitor"].add(("monitor %d %d %d %d %d %d" % tuple(int(o[k]) for k in ("crashed", "exit0", "diag", "packer", "left", "same")), v))
+        tag = "%s:%s" % (kind, v if v != "ok" else ("ok-exit0" if o["exit0"] else "ok-failed-clean"))
+        sstat["verdicts"][tag] = sstat["verdicts"].get(tag, 0) + 1
+        items = map_log(case.tool, st, r["sites"])
+        real_ran = [it[1] for it in items if it[0] == "site"]
+        opf = "main"
+        if case.model and case.model[0] == "reader":
+            opf = "write_entry" if case.model[1] == "s2t" else next((STDOUT_FN[c] for c in case.model[2] if c in STDOUT_FN), "main")
+        key = "%s:stdout:%s@%s" % (case.tool, v, opf)
+        replay = {"case": case.name, "stdio": kind, "input_seed": ctx.seed, "tier": ctx.tier, "rc": r["rc"], "verdict": v, "stderr": r["stderr"][-400:],
+                  "sites_run": real_ran[-4:], "fault_free_output_bytes": base["out_len"]}
+        if v != "ok":
+            report(key, "%s %s when standard %s cannot be written (%s)%s" % (
+                case.tool, WHAT[v], "error" if kind == "errfull" else "output",
+                {"devfull": "no space: /dev/full", "closed": "descriptor closed", "epipe": "EPIPE, SIGPIPE ignored", "errfull": "/dev/full"}[kind],
+                ": the %d bytes of results are lost, exit status 0, no diagnostic" % base["out_len"] if v == "exit0-different-output" and case.out_kind == "stdout" else ""), replay)
+        # ---- the model (readers; the packers' skeleton has no stdout site: their progress output is not a result)
+        if packer or variant is None or kind == "errfull" or o["crashed"]:
+            continue
+        if any(it[0] == "unknown" for it in items):
+            continue
+        if o["exit0"]:
+            # every site ran; the write error can only have met libc's exit-time flush (position = number of sites)
+            m = parse_model(driver_lines(ctx, [q(variant, "@%d" % len(real_ff))])[0])
+            lost = base["out_len"] > 0 and case.out_kind == "stdout"
+            ok = m["status"] == "0" and m["ran"] == (",".join(real_ran) or "-") and (m["lost"] == "1") == lost
+            if ok and lost:
+                acc["model_predicts_stdout_lost"] += 1      # the defect the model of the unrepaired source knows (Witness.C13.stdout_error_unreported)
+        elif real_ran:
+            m = parse_model(driver_lines(ctx, [q(variant, "@%d" % (len(real_ran) - 1))])[0])
+            ok = m["status"] == "1" and m["ran"] == ",".join(real_ran) and (m["diag"] == "1") == o["diag"]
+        else:
+            continue
+        sstat["model_compared"] += 1
+        if not ok:
+            acc["corr_bad"] += 1
+            report("corr:stdout:" + key, "standard output fault %s in %s: real rc=%d sites ..%s, model %s" % (kind, case.name, r["rc"], real_ran[-3:], m),
+                   dict(replay, model=m), found_input=False)
 
 
 # ------------------------------------------------------------------------------------------------ layer 2: block processor API
@@ -1177,23 +1423,46 @@ BP_FIXED_SESSIONS = [
 
 def bp_tokens(files, sync_after=()):
     """tokens for the harness and for the model.  Model-only inputs: is a tail a duplicate of an earlier one, do the data
-    blocks of a file repeat those of an earlier file (both follow from the content classes)"""
-    real, model, seen_tail, seen_blocks = [], [], set(), set()
+    blocks of a file repeat blocks written earlier.  Both follow from the content classes: h_c13_bp.c fills a shared
+    (`s`) file of n units with byte i = 0x41 + (7 i + 1024 n) mod 23, so a block is identified by (phase, length) — two
+    shared files of *different* length can have equal blocks; the block writer's search (block_writer.c
+    deduplicate_blocks: the file's block list as a contiguous run anywhere in the list of blocks written so far, its own
+    blocks included) is replayed here on those identifiers."""
+    UNIT, B = 1024, 4096
+    real, model, seen_tail, written, uniq = [], [], set(), [], 0
     for idx, fl in enumerate(files):
         i, d, n, c = fl[:4]
         nd = fl[4] if len(fl) > 4 else 0
-        full = n // 4 + (1 if (d and n % 4) else 0)
-        dupb = c == "s" and n >= 4 and (n, d) in seen_blocks
+        nbytes = n * UNIT
+        full = nbytes // B
+        tail = nbytes % B
+        blocks = []
+        for j in range(full + (1 if (d and tail) else 0)):
+            ln = B if j < full else tail
+            if c == "s":
+                blocks.append(("s", (j * B * 7 + nbytes) % 23, ln))
+            elif c == "u":
+                uniq += 1
+                blocks.append(("u", uniq, ln))
+            # all-zero blocks are sparse: nothing is written, nothing is recorded
+        dupb = False
+        if blocks:
+            start = len(written)
+            written += blocks
+            if not nd:
+                for k in range(start):
+                    if written[k:k + len(blocks)] == blocks:
+                        dupb = True
+                        written = written[:(k + len(blocks)) if len(blocks) >= start - k else start]
+                        break
         real.append("B%d%d%d" % (i, d, nd))
         model.append("B%d%d%d%d" % (i, d, nd, 1 if dupb else 0))
         if n > 0:
-            tail = n % 4
-            dup = c == "s" and tail != 0 and not d and n in seen_tail
-            if c == "s":
-                if tail != 0 and not d:
-                    seen_tail.add(n)
-                if full:
-                    seen_blocks.add((n, d))
+            dup = False
+            if c == "s" and tail != 0 and not d:
+                tid = ((full * B * 7 + nbytes) % 23, tail)
+                dup = tid in seen_tail
+                seen_tail.add(tid)
             real.append("A%d:%s" % (n, c))
             model.append("A%d:%d%d" % (n, 1 if c == "z" else 0, 1 if dup else 0))
         real.append("E")
@@ -1360,7 +1629,8 @@ def bp_phase(ctx, report, stats, nworkers, env, acc):
 # check is not doing its job); quick tier
 FLOOR_SITES = ["openOut", "openHandle", "superWrite", "fstreeFromFile", "scanDir", "chdirPack", "nodePath", "packFile", "tarNext", "tarReadLink",
                "tarEntry", "postProcess", "procFinish", "serialize", "fragTable", "exportWrite", "idTable", "xattrFlush", "superRewrite", "pad",
-               "sIterCreate", "sEntry", "sFlush", "rOpen", "rSuper", "rHierarchy", "rRestore", "rFill", "rAttribs", "rSplice"]
+               "sIterCreate", "sEntry", "sFlush", "rOpen", "rSuper", "rHierarchy", "rRestore", "rFill", "rAttribs", "rSplice",
+               "rDescribe", "rDumpXattrs", "realpathOut"]
 FLOOR_RUNS = {"quick": 2500, "thorough": 6000}
 
 
@@ -1392,8 +1662,10 @@ def run(ctx):
         cases = [c for c in cases if c.name in only.split(",")]
     nworkers = int(os.environ.get("VERIF_JOBS", "0")) or (4 if ctx.quick() else max(4, vlib.NCPU - 2))
     stats = {"runs": 0, "fired": 0, "verdicts": {}, "by_case": {}, "post_fault_output_writes": {}, "model_compared": 0,
-             "tolerated": 0, "outside_model": {}, "cut": {}}
-    acc = {"monitor": set(), "distinct": set(), "samples": [], "corr_bad": 0, "model_predicts_output_left": 0, "sites_failed": {}, "tree_variant": {}}
+             "tolerated": 0, "tolerated_by_call": {}, "outside_model": {}, "cut": {}, "noisy_baselines": [],
+             "stdout_class": {"runs": 0, "verdicts": {}, "model_compared": 0}}
+    acc = {"monitor": set(), "distinct": set(), "samples": [], "corr_bad": 0, "model_predicts_output_left": 0, "model_predicts_stdout_lost": 0,
+           "sites_failed": {}, "tree_variant": {}}
     for case in cases:
         t0 = time.time()
         process_case(ctx, case, tools, syms, skels, env, work, report, stats, thorough, nworkers, acc)
@@ -1402,7 +1674,7 @@ def run(ctx):
         bp_phase(ctx, report, stats, nworkers, env, acc)
     # the Lean specification evaluated on every distinct observation must agree with the Python mirror used above
     uniq = sorted(acc["monitor"])
-    if not uniq:
+    if not uniq and not only:
         raise Infra("no observation was judged")
     got = driver_lines(ctx, [l for l, _ in uniq])
     for (l, e), g in zip(uniq, got):
@@ -1416,6 +1688,13 @@ def run(ctx):
             floor.append("%d runs, %d compared with the model" % (stats["runs"], stats["model_compared"]))
         if never:
             floor.append("no fault made these sites fail: %s" % never)
+        sc = stats["stdout_class"]
+        if sc["runs"] < 4 * 8 or sc["model_compared"] < 3 * 6:
+            floor.append("fault class stdout: %d runs, %d compared with the model" % (sc["runs"], sc["model_compared"]))
+        npool = sum(v.get("fired", 0) for k, v in stats["by_case"].items() if k.endswith("@pool"))
+        nmmap = sum(1 for x in acc["distinct"] if x[1] == "mmap")
+        if npool < 100 or nmmap == 0:
+            floor.append("pool-allocator builds: %d fired faults, %d distinct mmap sites" % (npool, nmmap))
         if floor and not ctx.violations:
             # (when a correspondence violation was reported the model comparison of that case is skipped, which explains a
             # missed floor; otherwise the generators no longer reach the code and the check must not pass)
@@ -1430,11 +1709,15 @@ def run(ctx):
                 "-c, -x, -d, -s on a generated input (duplicate, fragment, all-zero tails, sparse blocks, hard link, xattrs, export table; extras, compressor, -j and "
                 "-q depend on the seed); gen-mt: -j 2..4, sampled; boundary cases b-meta (every table > one meta block) / b-data (block list growth, duplicate "
                 "fragment read back from disk) (/ b-frag in thorough): every output write/truncate, allocations stratified by call site; gen-many: realloc positions on a "
-                "513-inode tree. non-trivial = distinct (tool, class, innermost two project frames) at which a fault fired",
+                "513-inode tree. Round 3: fsop also = opendir/fdopendir/readdir/fflush; class mmap in pool-allocator builds (…@pool cases: every mmap + 35 sampled "
+                "allocations); class stdout (devfull/closed/epipe + stderr on /dev/full) for s2t, s2t-c, rd-u, rd-c, rd-x, rd-d, rd-s, rd-l, rd-d-nox, gen-F, t2s; "
+                "cases gen-glob, gen-kx (--keep-xattr), t2s-gz (-x --no-skip -E glob), t2s-gzb, t2s-sparse0..2, s2t-sub, rd-l, rd-d-nox: every EIO/ENOSPC "
+                "system call position + 25..70 sampled others. non-trivial = distinct (tool, class, innermost two project frames) at which a fault fired",
         "exhaustive": True,
         "samples": acc["samples"],
         "disagreements_checked": acc["corr_bad"],
         "runs_in_which_the_model_predicts_output_left": acc["model_predicts_output_left"],
+        "runs_in_which_the_model_predicts_stdout_lost": acc["model_predicts_stdout_lost"],
         "tree_matches_variant": acc["tree_variant"],
         "sites_made_to_fail": acc["sites_failed"],
         "floor_missed": floor,
@@ -1449,12 +1732,39 @@ def run(ctx):
         "output, stderr, stdout); what happens below a site (tar parser, fstree, xattr writer, meta writers, readers) is established only by the enumeration "
         "(complete per input and single fault, not for all inputs)"],
         assumptions=["faults are single (one failing call per run; EINTR kind = EINTR then EIO on the retry; truncated input = the input ends at one point and stays ended)",
-                     "third-party libraries' own allocations and the kernel are not faulted; mempool.c (mmap) is not part of the build (NO_CUSTOM_ALLOC)"])
+                     "third-party libraries' own allocations and the kernel are not faulted",
+                     "two builds: plain malloc (-DNO_CUSTOM_ALLOC, every case) and /repo's default configuration (pool allocator mempool.c; the "
+                     "cases named …@pool: every mmap of the pool + a sample of the other allocations)",
+                     "a write error on standard output is produced by the environment (/dev/full, closed descriptor, pipe without reader with SIGPIPE "
+                     "ignored), not by the shim: stdio's writes are libc-internal"])
 
 
 def replay(ctx, path):
     body = json.loads(open(path).read())
     rp = body.get("replay", {})
+    if "stdio" in rp:
+        tools, syms, skels = build_tools(ctx)
+        ctx.tier = rp.get("tier", "quick")
+        cases, _ = all_cases(ctx, tools, rp.get("input_seed", 0), rp.get("tier", "quick") != "quick")
+        hit = [c for c in cases if c.name == rp["case"]]
+        if not hit:
+            print("no case named", rp["case"])
+            return 1
+        case = hit[0]
+        tkey = case.tool + ("@pool" if case.pool else "")
+        base = run_case(case, tools[tkey], ctx.scratch / "w" / "base", skels[tkey], None, env_base=ctx.san_env(), timeout=TIMEOUT_ISOLATED)
+        r = run_case(case, tools[tkey], ctx.scratch / "w" / "r", skels[tkey], None, env_base=ctx.san_env(), timeout=TIMEOUT_ISOLATED, stdio=rp["stdio"])
+        same = (base["out_len"] == 0) if (case.out_kind == "stdout" and rp["stdio"] != "errfull") else r["out"] == base["out"]
+        o = observe(case, base, r, same)
+        if rp["stdio"] == "errfull":
+            o["diag"] = True
+        v = verdict_py(o)
+        print("case   :", case.name, case.tool, " ".join(case.argv))
+        print("stdio  :", rp["stdio"], "(fault-free run writes %d bytes to standard output)" % base["out_len"])
+        print("exit   :", r["rc"])
+        print("stderr :", r["stderr"].strip()[-400:])
+        print("verdict:", v)
+        return 0 if v == "ok" else 1
     if "fault" not in rp:
         print("replay file names a broken obligation, no input to replay:", json.dumps(rp)[:500])
         return 1
@@ -1490,7 +1800,8 @@ def replay(ctx, path):
         print("no case named", rp["case"])
         return 1
     case = hit[0]
-    exe, st, skel = tools[case.tool], syms[case.tool], skels[case.tool]
+    tkey = case.tool + ("@pool" if case.pool else "")
+    exe, st, skel = tools[tkey], syms[tkey], skels[tkey]
     base = run_case(case, exe, ctx.scratch / "w" / "base", skel, None, env_base=env, timeout=TIMEOUT_ISOLATED)
     r = run_case(case, exe, ctx.scratch / "w" / "r", skel, rp["fault"], env_base=env, timeout=TIMEOUT_ISOLATED)
     same = None
